@@ -53,20 +53,27 @@ Definition chk_prove (bits cap T : nat) (values : list N) (promises : list (opti
   let rng i := take_nonzero 1000 (map k_of_limbs (nth i draws [])) in
   let nn := assign Kl (nonce_of ntable) rng seeded T rounds in
   let ch := mkPchals Kl (k_of_limbs y) (k_of_limbs z) (map k_of_limbs es) (k_of_limbs e) in
-  let p := prove_core Kl Vl bits cap (fm_gens bits cap T) values promises bl nn ch in
+  let g := fm_gens bits cap T in
+  let commitments := map (fun vr => commit Kl Vl g (fofN Kl (fst vr)) (snd vr)) (combine values bl) in
+  let wT := match bl with [] => O | r :: _ => length r end in
   let kv := map k_of_limbs in
-  let c1 := pflag (vl_eqb (pp_A p) (kv oA)) 1 in
-  let c2 := pflag (vlist_eqb (pp_L p) (map kv oL) && vlist_eqb (pp_R p) (map kv oR)) 2 in
-  let c4 := pflag (vl_eqb (pp_A1 p) (kv oA1) && vl_eqb (pp_B p) (kv oB)) 4 in
-  let c8 := pflag (BigZ.eqb (pp_r1 p) (k_of_limbs or1) && BigZ.eqb (pp_s1 p) (k_of_limbs os1)
-                   && klist_eqb (pp_d1 p) (kv od1)) 8 in
   let ts := mkTstmt (N.of_nat bits) (N.of_nat T) (n_of_limbs Henc) (map n_of_limbs Gbenc) (map n_of_limbs Venc) promises in
   let w := witness_arg values (map (map (fun l => n_of_k (k_of_limbs l))) blindings) in
   let c16 := pflag (match prover_ops ts seeded (proof_of pf) w with
                     | Some ops => ops_eqb ops (map op_of_rop obs_ops)
                     | None => false
                     end) 16 in
-  (c1 + c2 + c4 + c8 + c16)%N.
+  (* the whole prover entry point of the model: guard, then proof computation; the implementation returned a proof *)
+  match prove_top Kl Vl bits cap T g commitments promises values bl wT nn ch with
+  | None => (15 + c16)%N
+  | Some p =>
+  let c1 := pflag (vl_eqb (pp_A p) (kv oA)) 1 in
+  let c2 := pflag (vlist_eqb (pp_L p) (map kv oL) && vlist_eqb (pp_R p) (map kv oR)) 2 in
+  let c4 := pflag (vl_eqb (pp_A1 p) (kv oA1) && vl_eqb (pp_B p) (kv oB)) 4 in
+  let c8 := pflag (BigZ.eqb (pp_r1 p) (k_of_limbs or1) && BigZ.eqb (pp_s1 p) (k_of_limbs os1)
+                   && klist_eqb (pp_d1 p) (kv od1)) 8 in
+  (c1 + c2 + c4 + c8 + c16)%N
+  end.
 
 (** the prover's guard (Model/Prover.v [witness_valid]: opening count, extension degree, value capacity,
     re-commitment, promise <= value) at the concrete instance: the statement's commitments are built from
